@@ -1,7 +1,6 @@
 SPECIFICATION Spec
 CONSTANTS
-  ExprDepth = 2
-  FormDepth = 2
-  FullOps = "reps"
   Family = "form"
-INVARIANTS TermOK Emit
+  MaxDepth = 2
+  FullOps = "reps"
+INVARIANTS SpineOK FullOK Emit
